@@ -382,7 +382,50 @@ func sameQueue(p *Prog, a, b ssa.Value) bool {
 	}
 	fa, ba, oka := fieldOfLoad(a)
 	fb, bb, okb := fieldOfLoad(b)
-	return oka && okb && fa == fb && p.canon(ba) == p.canon(bb)
+	if oka && okb && fa == fb && p.canon(ba) == p.canon(bb) {
+		return true
+	}
+	// an element of a slice literal built on the spot (`for _, q := range []T{x.a, x.b}`)
+	for _, e := range p.elemCandidates(a) {
+		if e != a && sameQueue(p, e, b) {
+			return true
+		}
+	}
+	return false
+}
+
+// elemCandidates: when v is an element read from a slice/array literal of the same function, the values
+// the literal was built from.
+func (p *Prog) elemCandidates(v ssa.Value) []ssa.Value {
+	u, ok := v.(*ssa.UnOp)
+	if !ok || u.Op != token.MUL {
+		return nil
+	}
+	ia, ok := u.X.(*ssa.IndexAddr)
+	if !ok {
+		return nil
+	}
+	x := ia.X
+	if sl, ok := x.(*ssa.Slice); ok {
+		x = sl.X
+	}
+	al, ok := x.(*ssa.Alloc)
+	if !ok || al.Referrers() == nil {
+		return nil
+	}
+	var out []ssa.Value
+	for _, r := range *al.Referrers() {
+		ea, ok := r.(*ssa.IndexAddr)
+		if !ok || ea.Referrers() == nil {
+			continue
+		}
+		for _, rr := range *ea.Referrers() {
+			if st, ok := rr.(*ssa.Store); ok && st.Addr == ssa.Value(ea) {
+				out = append(out, st.Val)
+			}
+		}
+	}
+	return out
 }
 
 // isStreamTable: v is the per-connection server stream table (map[uint64]*Context).
